@@ -21,6 +21,12 @@ out.append(f"**Hook commits ({len(hooks)}, feature `verif`, add-only):** " + "; 
 out.append(f"**Known findings recorded rather than repaired ({len(kf['findings'])} signatures in `known_findings.json`).**\n")
 out.append("| property | signature | why not repaired |\n|---|---|---|")
 why = {
+ 'C07 fact .record:missing(empty': 'the tree stores record components in a plain Vec, so "record without components" cannot be represented; needs a tree change (the C01 finding seen through remap)',
+ 'C07 fact .record:missing': 'remap has a TODO here; the fields of duke\'s RecordComponent are crate-private, so dukebox cannot rebuild a component: needs an API decision in duke, not a small patch',
+ 'C07 fact .module:missing': 'remap has a TODO here; the fields of duke\'s Module (uses / provides carry class references) are crate-private: needs an API decision in duke',
+ 'C07 fact .module_packages:missing': 'belongs to the Module repair: the package list has to follow classes that the mappings move to another package, which needs a package-level view remap does not have',
+ 'InvokeDynamic.name:not_remapped': 'the call-site name is a method of the functional interface; renaming it needs the interface looked up from the call-site descriptor and the first bootstrap argument: a feature (TODO in the source)',
+ 'element_name:not_remapped': 'an element name is a method of the annotation interface; renaming it needs a jar-level lookup of that interface\'s methods (no descriptor at hand): a feature (TODO in the source)',
  'frames:missing': 'the writer has no StackMapTable emitter at all (a TODO in the source); writing one is a feature, not a small repair. The C13 / C14 signatures are the same loss seen through merge / nesting',
  'long/double': 'the crate models the pool as a plain Vec without the unusable second slot; a repair changes the public data model',
  'record:missing': 'the tree stores record components in a plain Vec, so "record without components" cannot be represented; needs a tree change',
